@@ -428,17 +428,18 @@ func (r *FnRun) checkFrame(fr *Frame, out *State, retGuard Term) {
 		return
 	}
 	entry := fr.entry
-	if out.epoch != entry.epoch {
-		r.addObl("frame", "calls-uncontracted-code", False, "the function reaches code without a contract (whole heap havocked) but its contract has no 'modifies *'", nil, fr.Fn.Pos())
-		return
-	}
 	// allowed (component -> indices; nil slice = whole component)
 	type allow struct {
 		whole bool
 		idx   []Term
 	}
 	allowed := map[string]*allow{}
+	allowAll := false
 	add := func(comp string, idx Term, whole bool) {
+		if comp == "*" {
+			allowAll = true
+			return
+		}
 		a := allowed[comp]
 		if a == nil {
 			a = &allow{}
@@ -464,6 +465,13 @@ func (r *FnRun) checkFrame(fr *Frame, out *State, retGuard Term) {
 				add(n, Term{}, true)
 			}
 		}
+	}
+	if allowAll {
+		return
+	}
+	if out.epoch != entry.epoch {
+		r.addObl("frame", "calls-uncontracted-code", False, "the function reaches code without a contract (whole heap havocked) but its contract has no 'modifies *'", nil, fr.Fn.Pos())
+		return
 	}
 	top0 := entry.top
 	for _, name := range sortedKeys(out.heap) {
@@ -559,13 +567,29 @@ func (r *FnRun) modTargets(fr *Frame, ctx *EvalCtx, e Expr, add func(comp string
 				ctx.fail("reach(%s): unknown parameter", name)
 			}
 			if _, isIface := types.Unalias(v.Ty).Underlying().(*types.Interface); isIface {
-				for _, n := range r.Heap.Names() {
-					add(n, Term{}, true)
-				}
+				add("*", Term{}, true)
 				return
 			}
-			for _, comp := range fr.reachComps(v.Ty) {
-				add(comp, Term{}, true)
+			switch u := types.Unalias(v.Ty).Underlying().(type) {
+			case *types.Pointer:
+				el := types.Unalias(u.Elem())
+				if st, ok := el.Underlying().(*types.Struct); ok && !fr.isOpaqueStruct(el) {
+					for i := 0; i < st.NumFields(); i++ {
+						add(fieldComp(el, st.Field(i).Name()), v.T, false)
+						for _, comp := range fr.reachComps(st.Field(i).Type()) {
+							add(comp, Term{}, true)
+						}
+					}
+				} else {
+					add(boxComp(r.TM.SortOf(el)), v.T, false)
+					for _, comp := range fr.reachComps(el) {
+						add(comp, Term{}, true)
+					}
+				}
+			default:
+				for _, comp := range fr.reachComps(v.Ty) {
+					add(comp, Term{}, true)
+				}
 			}
 		default:
 			ctx.fail("unsupported modifies target %s", ExprString(e))
